@@ -771,3 +771,9 @@ M("c08-index-by-int-only", ["C08", "C17"], VM,
   [("C08", "C08-R10", "int"), ("C17", "C17-R11", "int")], note="fix cd3a517 reverted for string element reads")
 T("t-c13-digit-helper-inline", ["C13", "C04", "C10"], LX,
   "    return len(ch) == 1 and \"0\" <= ch <= \"9\"", "    return len(ch) == 1 and ch in \"0123456789\"")
+TP("t-parser-lookahead-contextmanager", ALL_PROPS, "selftest/patches/t-parser-lookahead-contextmanager.diff",
+   note="the three look-ahead helpers share a try/finally context manager (the repaired form of seed C04-b)")
+TP("t-parser-mark-reset", ALL_PROPS, "selftest/patches/t-parser-mark-reset.diff",
+   note="look-ahead through _mark()/_reset(mark) helpers, restored on the handler path too (the repaired form of seed C13-b)")
+TP("t-conversion-guard-contextmanager", ALL_PROPS, "selftest/patches/t-conversion-guard-contextmanager.diff",
+   note="the cycle/depth guard of the boundary converters as a try/finally context manager over an identity-keyed dict (the repaired form of seed C11-b)")
